@@ -6,6 +6,7 @@ import (
 	"fmt"
 	"io"
 	"os"
+	"runtime"
 	"runtime/pprof"
 	"strings"
 	"sync"
@@ -504,10 +505,22 @@ func runK7flush(r *rng, n int) {
 
 func runK7tags(r *rng, n int) {
 	for i := 0; i < n && !tooManyHangs(); i++ {
-		s := newK7w(r, 1, r.chance(2, 3))
-		for f := uint64(1); f <= 4; f++ {
-			s.walk(0, 0, f, p9.ModeRegular|0644, fmt.Sprintf("f%d", f))
+		// a third of the bursts on a single P: goroutines then interleave exactly at the yields of the
+		// chunking writer, which is where buffers shared through a sync.Pool would be seen half-written
+		oneP := r.chance(1, 3)
+		prevP := 0
+		if oneP {
+			prevP = runtime.GOMAXPROCS(1)
 		}
+		s := newK7w(r, 1, oneP || r.chance(1, 2))
+		s.be.mu.Lock()
+		s.be.attrByH = true
+		s.be.mu.Unlock()
+		handleOf := map[uint64]int{}
+		for f := uint64(1); f <= 4; f++ {
+			handleOf[f] = s.walk(0, 0, f, p9.ModeRegular|0644, fmt.Sprintf("f%d", f))
+		}
+		fidOfTag := map[uint16]uint64{}
 		burst := 4 + r.intn(60)
 		// gate a few of them for a while so that replies overtake each other
 		var gates []*gate
@@ -526,7 +539,8 @@ func runK7tags(r *rng, n int) {
 				continue
 			}
 			tags[tag] = 0
-			t, v := uint8(24), map[string]interface{}{"fid": uint64(1 + r.intn(4))}
+			gf := uint64(1 + r.intn(4))
+			t, v := uint8(24), map[string]interface{}{"fid": gf}
 			if r.chance(1, 4) {
 				t, v = 8, map[string]interface{}{"fid": uint64(1 + r.intn(5))} // StatFS, sometimes on an unbound fid
 			}
@@ -535,6 +549,9 @@ func runK7tags(r *rng, n int) {
 				// receive path, while other replies are being written
 				stream = append(stream, rawFrame(250, tag, []byte{1, 2, 3})...)
 				continue
+			}
+			if t == 24 {
+				fidOfTag[tag] = gf
 			}
 			stream = append(stream, s.frame(t, tag, v)...)
 		}
@@ -550,6 +567,7 @@ func runK7tags(r *rng, n int) {
 		want := len(tags)
 		var raw bytes.Buffer
 		badframe, unasked, dup, n := 0, 0, 0, 0
+		wrongbody := 0
 		for n < want {
 			f, err := s.conns[0].readFrame(5 * time.Second)
 			if err != nil {
@@ -561,6 +579,20 @@ func runK7tags(r *rng, n int) {
 				break
 			}
 			tag := binary.LittleEndian.Uint16(f[5:])
+			// an Rgetattr carries the attributes of the file its request named, nothing else's:
+			// size @56, blocks @72, atime @80, mtime @96 (after header 7, valid 8, qid 13, mode/uid/gid 12, nlink 8, rdev 8)
+			if gf, isGet := fidOfTag[tag]; isGet && f[4] == 25 && len(f) >= 104 {
+				h := handleOf[gf]
+				if binary.LittleEndian.Uint64(f[7:]) != 0x3fff { // the valid mask this backend always returns
+					wrongbody++
+				}
+				for k, off := range []int{56, 72, 80, 96} {
+					if binary.LittleEndian.Uint64(f[off:]) != attrWord(h, k+1) {
+						wrongbody++
+						break
+					}
+				}
+			}
 			c, ok := tags[tag]
 			if !ok {
 				unasked++
@@ -582,11 +614,14 @@ func runK7tags(r *rng, n int) {
 			}
 		}
 		s.close()
+		if oneP {
+			runtime.GOMAXPROCS(prevP)
+		}
 		if missing > 0 {
 			noteHang()
 		}
 		count(fmt.Sprintf("burst<=%d", (burst+15)/16*16))
-		emit("k7tags burst=%d gated=%d => missing=%d dup=%d unasked=%d badframe=%d extra=%d", len(tags), len(gates), missing, dup, unasked, badframe, extra)
+		emit("k7tags burst=%d gated=%d => missing=%d dup=%d unasked=%d badframe=%d extra=%d wrongbody=%d", len(tags), len(gates), missing, dup, unasked, badframe, extra, wrongbody)
 	}
 }
 
